@@ -1,9 +1,7 @@
 //! `verif` — one binary, three roles: parent (spawns workers, merges, evidence), worker
 //! (executes one shard in-process) and replay (re-executes one saved case).
-mod engine;
-mod gen;
-mod props;
-mod refimpl;
+use mila_verif::engine;
+use mila_verif::props;
 
 use engine::known::KnownFindings;
 use engine::prop::Tier;
